@@ -236,6 +236,9 @@ def nested_is_lossy():
 
 def process_spec(job):
   si, s, origin, seed, Q, P = job
+  forced = None
+  if isinstance(origin, tuple):          # (origin, [(label, sdna), ...]): a systematic family with its own DNAs
+    origin, forced = origin
   from pyglove.core import geno
   import pyglove as pgl
   DNA = geno.DNA
@@ -270,6 +273,9 @@ def process_spec(job):
     allv = G.all_valid(s)
     work = [allv[0], allv[-1]] + work[:max(0, P['ndna'] - 2)] if not P['all_small'] else allv
   combos = [(kt, vt, mc) for kt in KTS for vt in VTS for mc in MCS]
+  if forced is not None:
+    work = [sd for _, sd in forced]
+    for lbl, _ in forced: ctx.hist('shared_point_family_dnas', lbl)
   for wi, sd in enumerate(work):
     sdt = G.sdna_tr(sd)
     tree = G.normalize(sd)
@@ -293,14 +299,14 @@ def process_spec(job):
     # ---- (16) alignment of the bound DNA; (11) from_numbers; (12),(18) parsers --------------------
     add([16, qtr, str_, G.tree_tr(tree)], [[bound_tree(d, ix)]], dict(op='use_spec', spec=sdesc, dna=dstr))
     ctx.count(('bind', trlib.to_line(str_), trlib.to_line(sdt)), nontrivial=nontriv, kind='use_spec')
-    for label, lst in [('numbers', nums)] + [(k, l) for k, l in number_corruptions(rng, nums)][:P['ncorr']]:
+    for label, lst in [('numbers', nums)] + [(k, l) for k, l in number_corruptions(rng, nums)][:(1 if forced is not None else P['ncorr'])]:
       try:
         r = DNA.from_numbers(list(lst), pg); out = [[bound_tree(r, ix)]]
       except Exception as e:
         r = None; out = [[]]; ctx.hist('from_numbers_error', type(e).__name__)
       add([11, qtr, str_, [G.val_tr(v) for v in lst]], out, dict(op='from_numbers', spec=sdesc, numbers=repr(lst), kind=label))
       ctx.count(('from_numbers', trlib.to_line(str_), repr(lst)), nontrivial=True, kind='from_numbers:' + ('valid' if label == 'numbers' else 'corrupted'))
-    for label, val in [('nested', nested), ('compact', compact)] + nest_corruptions(rng, compact)[:P['ncorr']]:
+    for label, val in [('nested', nested), ('compact', compact)] + nest_corruptions(rng, compact)[:(1 if forced is not None else P['ncorr'])]:
       try:
         r = DNA(val); out = [[G.tree_tr(G.dna_to_tree(r))]]
       except Exception as e:
@@ -314,7 +320,7 @@ def process_spec(job):
     add([18] + [verbose[0], verbose[1:]], out, dict(op='from_json(verbose)', spec=sdesc, dna=dstr))
     ctx.count(('verbose', dstr), nontrivial=nontriv, kind='json-verbose')
     # ---- (13) to_dict under every parameter combination, (14) from_dict of the result -------------
-    sel = combos if wi < P['ndict'] else rng.sample(combos, 4)
+    sel = combos if wi < P['ndict'] else rng.sample(combos, P['nfam'] if forced is not None else 4)
     for kt, vt, mc in sel:
       kti, vti, mci = KTS.index(kt), VTS.index(vt), MCS.index(mc)
       for inactive in ([False, True] if (kti + vti + mci + wi) % 3 == 0 else [False]):
@@ -354,9 +360,9 @@ def process_spec(job):
         dict(op='lookups', spec=sdesc, dna=dstr))
     ctx.count(('lookups', trlib.to_line(str_), trlib.to_line(sdt)), nontrivial=nontriv, kind='lookups')
     # ---- the direct oracle -----------------------------------------------------------------------------
-    oracle_views(ctx, s, pg, ix, sd, d, sdesc, rng, P, full=wi < P['ndict']); ctx.oracle += 1
+    oracle_views(ctx, s, pg, ix, sd, d, sdesc, rng, P, full=(wi < P['ndict'] or forced is not None)); ctx.oracle += 1
   # ---- chains of producers ------------------------------------------------------------------------------
-  for ci in range(P['nchains']):
+  for ci in range(0 if forced is not None else P['nchains']):
     try:
       oracle_chain(ctx, s, pg, ix, sdesc, pyrandom.Random(seed + ci), fin)
     except Exception as e:   # pylint: disable=broad-except
@@ -474,6 +480,13 @@ def oracle_views(ctx, s, pg, ix, sd, d, sdesc, rng, P, full=True):
         ctx.hist('view_ok', True)
         disc = '%s/%s/%s/%s' % (kt, vt, mc, dict_disc(s))
         attempt('dict-roundtrip', disc, lambda: DNA.from_dict(dict(d.to_dict(kt, vt, mc)), pg, use_ints_as_literals=(vt == 'literal')))
+        if full and vt == 'value' and kt == 'name_or_id':
+          try:
+            rebuilt = DNA.from_numbers(d.to_numbers(), pg)
+            if repr(d.to_dict(kt, vt, mc)) != repr(rebuilt.to_dict(kt, vt, mc)):
+              fail('views-differ-from-rebuilt', disc, 'to_dict(%s, %s, %s) = %r but the DNA rebuilt from the numbers gives %r' % (kt, vt, mc, d.to_dict(kt, vt, mc), rebuilt.to_dict(kt, vt, mc)))
+          except Exception as e:   # pylint: disable=broad-except
+            fail('views-differ-from-rebuilt', disc + '/raises', 'rebuilding from numbers raises %s' % type(e).__name__)
   # lookups: by decision point, by id; by name when the name identifies one decision
   exp = decisions_at(s, sd)
   names = {}
@@ -632,14 +645,14 @@ def run(ctx):
   Q['nested_lossy'] = nested_is_lossy()
   ctx.extra['quirk_flags_from_witness_replay'] = Q
   import time
-  P = dict(ndna=ctx.scale(2, 6), ndict=ctx.scale(1, 2), ncorr=ctx.scale(3, 6), nchains=ctx.scale(1, 3), all_small=ctx.thorough,
-           deadline=time.time() + ctx.scale(70, 1100))
+  P = dict(ndna=ctx.scale(2, 6), ndict=ctx.scale(1, 2), ncorr=ctx.scale(3, 6), nchains=ctx.scale(1, 3), all_small=ctx.thorough, nfam=ctx.scale(9, 45),
+           deadline=time.time() + ctx.scale(85, 1100))
   ctx.extra['per_spec_parameters'] = {k: v for k, v in P.items() if k != 'deadline'}
   small = G.small_specs()
   small2 = [s for s in small if G.count_points(s) <= 2]
   small3 = [s for s in small if G.count_points(s) == 3]
   ctr = [0]
-  n2, n3, nr = ctx.scale(8, 400), ctx.scale(8, 500), ctx.scale(14, 600)
+  n2, n3, nr = ctx.scale(8, 400), ctx.scale(6, 500), ctx.scale(10, 600)
   chosen = [decorate(rng, small2[i], ctr) for i in sorted(rng.sample(range(len(small2)), n2))] + \
            [decorate(rng, small3[i], ctr) for i in sorted(rng.sample(range(len(small3)), n3))]
   rand_specs = []
@@ -647,7 +660,16 @@ def run(ctx):
     rand_specs.append(G.random_spec(rng, budget=rng.choice([3, 4, 5, 6]), d=rng.choice([2, 3, 3, 4]), allow_inf=rng.random() < 0.5,
                                     names=True, lits=True, max_cands=rng.choice([2, 3, 4]), max_k=3, _ctr=ctr))
   from harness.props.c11 import FIXED_SPECS
-  specs = [(s, 'fixed') for s in FIXED_SPECS + FIXED_C12] + [(s, 'small+names/literals') for s in chosen] + [(s, 'random') for s in rand_specs]
+  # systematic: every kind of decision point x named/unnamed inside a candidate of a manyof in all four modes, active once / twice
+  family = G.shared_point_family(ks=(2, 3) if ctx.thorough else (2,))
+  if not ctx.thorough:   # quick: without the variants that also name the outer multi-choice
+    family = [(l, sp, [x for x in ds if x[0] != 'twice-different-rev']) for l, sp, ds in family
+              if 'outer-named' not in l and not (l.split('/')[1] == 'choice+lits' and l.endswith('unnamed'))]
+  ctx.extra['shared_point_family'] = dict(specs=len(family), dnas=sum(len(d) for _, _, d in family),
+      what='choice / choice+literals / float / custom x named/unnamed (x outer named) inside candidate 1 of manyof(k, 3 candidates) in all four distinct x sorted modes; '
+           'DNAs pick that candidate once, twice with equal and twice with different sub-values; every one of the 45 view combinations is round-tripped by the oracle')
+  specs = [(s, 'fixed') for s in FIXED_SPECS + FIXED_C12] + [(s, ('shared-point-family', dnas)) for _, s, dnas in family] + \
+          [(s, 'small+names/literals') for s in chosen] + [(s, 'random') for s in rand_specs]
   if os.environ.get('C12_MAXSPECS'):
     specs = specs[::max(1, len(specs) // int(os.environ['C12_MAXSPECS']))]
   jobs = [(si, s, origin, rng.getrandbits(48), Q, P) for si, (s, origin) in enumerate(specs)]
